@@ -242,9 +242,11 @@ func (x *Exec) havocAll(st *State) {
 	st.Heap = keep
 	st.Ghost = map[string]Term{}
 	st.Epoch = x.nextEpoch()
+	st.Mix = nil
 	na := x.u.Fresh("alloc", SInt)
 	x.u.Assume(Ge(na, st.Alloc))
 	st.Alloc = na
+	x.u.epochAlloc[st.Epoch] = na
 }
 
 func (x *Exec) unknownFuncCall(fr *Frame, st *State, c *ssa.CallCommon, fv Val, args []Val, rt types.Type, pos token.Pos) (Val, error) {
@@ -435,14 +437,20 @@ func (x *Exec) callContract(fr *Frame, st *State, fc *FuncContract, callee *ssa.
 		u.AddObligation(x.topName, fmt.Sprintf("requires@%s.c%d", tag, ci+1), pos, x.lab(nil), c.Text, st.PC, g)
 	}
 	pre := st.Clone()
-	// havoc the frame
-	if err := x.havocModifies(env, st, fc); err != nil {
-		return Val{}, engineErr("call %s: %v", fc.Key, err)
-	}
 	// monotone allocation
 	na := u.Fresh("alloc", SInt)
 	u.Assume(Ge(na, st.Alloc))
 	st.Alloc = na
+	u.havocAlloc = na
+	// havoc the frame
+	if err := x.havocModifies(env, st, fc); err != nil {
+		return Val{}, engineErr("call %s: %v", fc.Key, err)
+	}
+	if st.Epoch != pre.Epoch {
+		// "modifies heap": the allocation counter of the new epoch is the one after the call
+		st.Alloc = na
+	}
+	u.havocAlloc = Term{}
 	// results
 	res := u.FreshValOrTuple("r."+what, rt)
 	post := &Env{x: x, st: st, old: pre, names: map[string]Val{}, pkg: pkg}
